@@ -524,4 +524,275 @@ theorem check_spec (c : Client) (cbs : List (Nat × CbRec)) (hs : c.spin = false
   obtain ⟨i1, i2, i3, _, _, i6, i7⟩ := doCheck_spec (window + 1) c hs hm
   exact ⟨i1, i2, i7 (by omega), i3, fun o => (i6 o).1⟩
 
+/-! ### the invariant over every event of every run -/
+
+structure Inv4 (c : Client) : Prop where
+  spin : c.spin = false
+  served : Served c
+  nometa : NoMeta c
+
+theorem fOf_eq (c : Client) (x : Nat) : fOf c.cons x = (c.getCons x).f := rfl
+
+/-- a change that leaves the queued streams' fetch state and metadata flag alone -/
+theorem Inv4.congr {c c' : Client} (I : Inv4 c) (h1 : c'.spin = c.spin) (h2 : c'.streams = c.streams)
+    (h3 : c'.outstanding = c.outstanding)
+    (h4 : ∀ o ∈ c.streams, (c'.getCons o).f = (c.getCons o).f ∧
+      (c'.getCons o).metaPending = (c.getCons o).metaPending) : Inv4 c' := by
+  refine ⟨by rw [h1]; exact I.spin, ?_, ?_⟩
+  · rcases I.served with h | h | ⟨x, hx, hw⟩
+    · exact Or.inl (by rw [h3]; exact h)
+    · exact Or.inr (Or.inl (by rw [h2]; exact h))
+    · exact Or.inr (Or.inr ⟨x, by rw [h2]; exact hx, by rw [fOf_eq, (h4 x hx).1, ← fOf_eq]; exact hw⟩)
+  · intro o ho
+    rw [h2] at ho
+    rw [(h4 o ho).2]; exact I.nometa o ho
+
+theorem Inv4.setCons {c : Client} (I : Inv4 c) (o : Nat) (x : Cons)
+    (h : o ∈ c.streams → x.f = (c.getCons o).f ∧ x.metaPending = (c.getCons o).metaPending) :
+    Inv4 (c.setCons o x) := by
+  refine I.congr rfl rfl rfl ?_
+  intro o' ho'
+  rw [getCons_setCons]
+  split
+  · rename_i hh; obtain ⟨e, _⟩ := hh; subst e; exact h ho'
+  · exact ⟨rfl, rfl⟩
+
+theorem Inv4.fail {c : Client} (I : Inv4 c) (o : Nat) (ho : o ∉ c.streams) : Inv4 (c.fail o).1 := by
+  unfold Client.fail
+  exact I.setCons o _ (fun h => absurd h ho)
+
+theorem Inv4.check {c : Client} (hs : c.spin = false) (hm : NoMeta c) (cbs : List (Nat × CbRec)) :
+    Inv4 (c.check cbs).1 := by
+  obtain ⟨a, b, d, _, _⟩ := check_spec c cbs hs hm
+  exact ⟨a, d, b⟩
+
+theorem Inv4.consumeObject {c : Client} (I : Inv4 c) (o : Nat) (viaMeta : Bool) (ho : o ∉ c.streams)
+    (hmp : (c.getCons o).metaPending = false) : Inv4 (c.consumeObject o viaMeta).1 := by
+  unfold Client.consumeObject
+  simp only
+  cases hgl : (c.getCons o).fetchName.getLast? with
+  | none => exact I.fail o ho
+  | some l =>
+    simp only
+    by_cases hv : l.typ ≠ typVersion
+    · rw [if_pos hv]
+      by_cases hvm : viaMeta = true
+      · rw [if_pos hvm]; exact I.fail o ho
+      · rw [if_neg hvm]; exact I.setCons o _ (fun h => absurd h ho)
+    · rw [if_neg hv]
+      apply Inv4.check (c := { c with streams := c.streams ++ [o] }) I.spin
+      intro o' ho'
+      have ho'' : o' ∈ c.streams ++ [o] := ho'
+      rcases List.mem_append.mp ho'' with h | h
+      · exact I.nometa o' h
+      · simp at h; subst h; exact hmp
+
+theorem Inv4.handleData {c : Client} (I : Inv4 c) (o k : Nat) (a : Arrival) : Inv4 (c.handleData o k a).1 := by
+  unfold Client.handleData
+  apply Inv4.check
+  · exact I.spin
+  · intro o' ho'
+    have hin : o' ∈ c.streams := by
+      have ho'' : o' ∈ (if _ then (c.setCons o _).streams.filter (· ≠ o) else (c.setCons o _).streams) := ho'
+      split at ho''
+      · exact (List.mem_filter.mp ho'').1
+      · exact ho''
+    have := I.nometa o' hin
+    show ((c.setCons o _).getCons o').metaPending = false
+    rw [getCons_setCons]
+    split
+    · rename_i hh; obtain ⟨e, _⟩ := hh; subst e; exact this
+    · exact this
+
+theorem getCons_default (c : Client) (o : Nat) (h : ¬ o < c.cons.length) : c.getCons o = default := by
+  unfold Client.getCons
+  rw [List.getD_eq_getElem?_getD, List.getElem?_eq_none (by omega)]; rfl
+
+theorem Inv4.step {c : Client} (I : Inv4 c) (serve : Name → Bool → Option Pkt) (e : Ev) :
+    Inv4 (c.step serve e).1 := by
+  have hbad : Inv4 c.bad.1 := I.congr rfl rfl rfl (fun _ _ => ⟨rfl, rfl⟩)
+  cases e with
+  | unsolicited => exact I
+  | data o k =>
+    cases k with
+    | none =>
+      simp only [Client.step]
+      by_cases hmp : (c.getCons o).metaPending = true
+      · simp only [hmp, Bool.not_true, Bool.false_eq_true, if_false]
+        have ho : o ∉ c.streams := fun h => by have := I.nometa o h; rw [hmp] at this; cases this
+        cases c.served serve o none with
+        | none => exact hbad
+        | some p =>
+          simp only
+          have I1 : Inv4 (c.setCons o { (c.getCons o) with metaPending := false }) :=
+            I.setCons o _ (fun h => absurd h ho)
+          have ho1 : o ∉ (c.setCons o { (c.getCons o) with metaPending := false }).streams := ho
+          cases p.md with
+          | none => exact I1.fail o ho1
+          | some nm =>
+            simp only
+            have I2 := I1.setCons o { ((c.setCons o { (c.getCons o) with metaPending := false }).getCons o) with
+              fetchName := nm.1 } (fun h => absurd h ho1)
+            apply I2.consumeObject o true ho1
+            -- the metadata flag of o is off
+            by_cases hl : o < c.cons.length
+            · rw [getCons_setCons]
+              have hl1 : o < (c.setCons o { (c.getCons o) with metaPending := false }).cons.length := by
+                unfold Client.setCons; simpa using hl
+              simp only [hl1, and_self, if_true]
+              rw [getCons_setCons]
+              simp only [hl, and_self, if_true]
+            · rw [getCons_default]
+              · rfl
+              · unfold Client.setCons; simpa using hl
+      · have : (c.getCons o).metaPending = false := Bool.eq_false_iff.mpr hmp
+        simp only [this, Bool.not_false, if_true]; exact hbad
+    | some k =>
+      simp only [Client.step]
+      split
+      · exact hbad
+      · cases c.served serve o (some k) with
+        | none => exact hbad
+        | some p => exact I.handleData o k _
+  | timeout o k =>
+    cases k with
+    | none =>
+      simp only [Client.step]
+      by_cases hmp : (c.getCons o).metaPending = true
+      · simp only [hmp, Bool.not_true, Bool.false_eq_true, if_false]
+        have ho : o ∉ c.streams := fun h => by have := I.nometa o h; rw [hmp] at this; cases this
+        split
+        · exact I.setCons o _ (fun h => absurd h ho)
+        · exact (I.setCons o _ (fun h => absurd h ho)).fail o ho
+      · have : (c.getCons o).metaPending = false := Bool.eq_false_iff.mpr hmp
+        simp only [this, Bool.not_false, if_true]; exact hbad
+    | some k =>
+      simp only [Client.step]
+      cases (c.getCons o).pending.find? (·.1 = k) with
+      | none => exact hbad
+      | some e =>
+        simp only
+        split
+        · exact I.setCons o _ (fun _ => ⟨rfl, rfl⟩)
+        · exact I.handleData o k _
+
+/-! ### start and run -/
+
+theorem consumeObject_frame (c : Client) (o : Nat) (v : Bool) (hs : c.spin = false) (hm : NoMeta c)
+    (hmp : (c.getCons o).metaPending = false) :
+    (∀ x ∈ (c.consumeObject o v).1.streams, x ∈ c.streams ∨ x = o) ∧
+    (∀ o' : Nat, o' ≠ o → ((c.consumeObject o v).1.getCons o').metaPending = (c.getCons o').metaPending) := by
+  have hfail : (∀ x ∈ (c.fail o).1.streams, x ∈ c.streams ∨ x = o) ∧
+      (∀ o' : Nat, o' ≠ o → ((c.fail o).1.getCons o').metaPending = (c.getCons o').metaPending) := by
+    unfold Client.fail
+    refine ⟨fun x h => Or.inl h, ?_⟩
+    intro o' hne
+    simp only
+    rw [getCons_setCons]
+    split
+    · rename_i h; exact absurd h.1 hne
+    · rfl
+  unfold Client.consumeObject
+  simp only
+  cases hgl : (c.getCons o).fetchName.getLast? with
+  | none => exact hfail
+  | some l =>
+    simp only
+    by_cases hv : l.typ ≠ typVersion
+    · rw [if_pos hv]
+      by_cases hvm : v = true
+      · rw [if_pos hvm]; exact hfail
+      · rw [if_neg hvm]
+        refine ⟨fun x h => Or.inl h, ?_⟩
+        intro o' hne
+        simp only
+        rw [getCons_setCons]
+        split
+        · rename_i h; exact absurd h.1 hne
+        · rfl
+    · rw [if_neg hv]
+      have hm' : NoMeta ({ c with streams := c.streams ++ [o] } : Client) := by
+        intro o' ho'
+        have ho'' : o' ∈ c.streams ++ [o] := ho'
+        rcases List.mem_append.mp ho'' with h | h
+        · exact hm o' h
+        · simp at h; subst h; exact hmp
+      obtain ⟨_, _, _, i4, i5⟩ := check_spec ({ c with streams := c.streams ++ [o] } : Client) [] hs hm'
+      refine ⟨?_, fun o' _ => i5 o'⟩
+      intro x hx
+      have := i4 x hx
+      have h2 : x ∈ c.streams ++ [o] := this
+      rcases List.mem_append.mp h2 with h | h
+      · exact Or.inl h
+      · simp at h; exact Or.inr h
+
+theorem start_fold (os : List Nat) : ∀ (acc : Client × Out), Inv4 acc.1 → os.Nodup →
+    (∀ o ∈ os, o ∉ acc.1.streams ∧ (acc.1.getCons o).metaPending = false) →
+    Inv4 (os.foldl (fun (acc : Client × Out) o =>
+      ((acc.1.consumeObject o false).1, acc.2.append (acc.1.consumeObject o false).2)) acc).1 := by
+  induction os with
+  | nil => intro acc I _ _; exact I
+  | cons o rest ih =>
+    intro acc I nd hfresh
+    simp only [List.foldl_cons]
+    obtain ⟨h1, h2⟩ := hfresh o List.mem_cons_self
+    have I' := I.consumeObject o false h1 h2
+    obtain ⟨f1, f2⟩ := consumeObject_frame acc.1 o false I.spin I.nometa h2
+    have nd' := (List.nodup_cons.mp nd)
+    apply ih ((acc.1.consumeObject o false).1, acc.2.append (acc.1.consumeObject o false).2) I' nd'.2
+    intro o' ho'
+    have hne : o' ≠ o := fun e => nd'.1 (e ▸ ho')
+    obtain ⟨g1, g2⟩ := hfresh o' (List.mem_cons_of_mem _ ho')
+    refine ⟨?_, by rw [f2 o' hne]; exact g2⟩
+    intro hin
+    rcases f1 o' hin with h | h
+    · exact g1 h
+    · exact hne h
+
+theorem Inv4.start (names : List Name) : Inv4 (Client.start names).1 := by
+  unfold Client.start
+  apply start_fold
+  · refine ⟨rfl, Or.inr (Or.inl rfl), ?_⟩
+    intro o ho; cases ho
+  · exact List.nodup_range
+  · intro o _
+    refine ⟨?_, ?_⟩
+    · intro h; cases h
+    simp only [Client.getCons, List.getD_eq_getElem?_getD, List.getElem?_map]
+    cases names[o]? <;> rfl
+
+theorem Inv4.markImpossible {c : Client} (I : Inv4 c) (b : Bool) :
+    Inv4 (if b = true then c else { c with impossible := true }) := by
+  cases b
+  · exact I.congr rfl rfl rfl (fun _ _ => ⟨rfl, rfl⟩)
+  · exact I
+
+/-- every run: after every event the selection loop has returned (`spin = false`) and the fetcher is
+    `Served` -/
+theorem Inv4.run (serve : Name → Bool → Option Pkt) (delivers : Nat → Key → Nat → Bool) (names : List Name)
+    (evs : List Ev) : Inv4 (Client.run serve delivers names evs).1 := by
+  unfold Client.run
+  simp only
+  have key : ∀ (evs : List Ev) (acc : Client × List Out × List ((Nat × Key) × Nat)), Inv4 acc.1 →
+      Inv4 (evs.foldl (fun (acc : Client × List Out × List ((Nat × Key) × Nat)) e =>
+        let c := acc.1
+        let cnt := acc.2.2
+        let consistent : Bool :=
+          match e with
+          | .data o k => delivers o k (countOf cnt (o, k)) && (c.served serve o k).isSome
+          | .timeout o k => !(delivers o k (countOf cnt (o, k)) && (c.served serve o k).isSome)
+          | .unsolicited => true
+        let r := c.step serve e
+        let c' := if consistent then r.1 else { r.1 with impossible := true }
+        (c', acc.2.1 ++ [r.2], r.2.sent.foldl bump cnt)) acc).1 := by
+    intro evs
+    induction evs with
+    | nil => intro acc I; exact I
+    | cons e rest ih =>
+      intro acc I
+      simp only [List.foldl_cons]
+      apply ih
+      exact (I.step serve e).markImpossible _
+  exact key evs _ (Inv4.start names)
+
 end Ndn.C15
